@@ -22,7 +22,7 @@ MANIFEST = {
             "them), node-list formatting of Builder/Compiler (format_node), format_feature/type_id/data. AArch64 operand and named-label "
             "parse-back are monitored on every run, not proved for all inputs. The encoder's bytes are inputs here (C01/C02).",
 }
-MODS = ["AsmjitVerif.Props.C20", "AsmjitVerif.Props.C20Names", "AsmjitVerif.Props.C20Mem", "AsmjitVerif.Props.C20Read"]
+MODS = ["AsmjitVerif.Props.C20", "AsmjitVerif.Props.C20Names", "AsmjitVerif.Props.C20Mem", "AsmjitVerif.Props.C20Read", "AsmjitVerif.Props.C20Line"]
 
 M64 = (1 << 64) - 1
 FF = {"mc": 0x1, "alias": 0x8, "explain": 0x10, "heximm": 0x20, "hexoff": 0x40, "casts": 0x100, "pos": 0x200, "regtype": 0x400}
@@ -63,6 +63,7 @@ class Gen:
         self.named = []       # ids of labels that are fine as operands
         self.vregs = []       # (index, type, named)
         self.flags = 0
+        self.targets = []     # (begin, end) op index ranges of the deterministic target blocks
 
     def add(self, line, wf=False):
         self.ops.append(line)
@@ -470,6 +471,60 @@ class Gen:
                 comment = ("note %d" % rng.randrange(100)).encode().hex()
             self.add("emit %d %x %s %s %s" % (iid, opts, extra, comment, " ".join(ops)), True)
 
+    def target_block(self, names, ids):
+        """deterministic cases every run must contain (classes a careless change is most likely to break unnoticed):
+        (a) an unbound-label memory operand TOGETHER with an immediate under kMachineCode (dots vs immediate bytes of the column),
+        (b) absolute addresses >= 0x80000000 incl. the 64-bit moffs forms (full displacement text),
+        (c) every label form as operand, in particular a local label under an unnamed parent (`L0.inner`)."""
+        a64 = self.arch == "a64"
+        hdr = {}
+        for i, n_ in enumerate(names):
+            hdr.setdefault(n_, i)
+        tag = len(self.ops)
+        for l in range(self.nlabels):
+            self.add("op l.%d" % l, True)
+        if a64:
+            for l in (3, 4, 8, 9):          # labels 0,1,2 get bound later; these stay unbound
+                self.add("op am.L%d.-.0.0.0.0.0" % l, True)
+                if not self.comp:
+                    self.add("emit %d 0 - - l.%d" % (hdr["b"], l), True)
+                    self.add("emit %d 0 - - r.6.3 l.%d" % (hdr["adr"], l), True)
+                    self.add("emit %d 0 - - r.6.3 am.L%d.-.0.0.0.0.0" % (hdr["ldr"], l), True)
+            self.targets.append((tag, len(self.ops)))
+            return
+        x64 = self.arch == "x64"
+        big = [0x80000000, 0x80000001, 0xFFFFF000, 0xFFFFFFFF, 0x100000000, 0x1122334455667788, (1 << 63) - 1, 1 << 63, (1 << 64) - 16]
+        for v in big:
+            sv = v if v < (1 << 63) else v - (1 << 64)
+            for at in (0, 1):
+                self.add("op m.8.0.%d.-.-.0.%d.0.0" % (at, sv), True)
+                self.add("op m.0.2.%d.-.-.0.%d.0.0" % (at, sv), True)
+        for l in (3, 4, 8, 9):
+            self.add("op m.4.0.0.L%d.-.0.0.0.0" % l, True)
+            self.add("op m.4.0.2.L%d.-.0.-8.0.0" % l, True)
+        if not self.comp:
+            w = 6 if x64 else 5
+            for l in (3, 4, 8, 9):
+                for imm in (0x11223344, 0x7F, -1, 1):
+                    for mn in ("mov", "add", "cmp", "test", "and"):
+                        self.add("emit %d 0 - - m.4.0.0.L%d.-.0.%d.0.0 i.%d" % (hdr[mn], l, 0 if mn == "mov" else 4, imm), True)
+                self.add("emit %d 0 - - r.5.1 m.4.0.0.L%d.-.0.0.0.0 i.1000" % (hdr["imul"], l), True)
+                self.add("emit %d 0 - - m.4.0.0.L%d.-.0.0.0.0 i.3" % (hdr["shl"], l), True)
+                self.add("emit %d 0 - - r.11.1 m.16.0.0.L%d.-.0.0.0.0 i.27" % (hdr["pshufd"], l), True)
+                self.add("emit %d 0 - - m.2.0.0.L%d.-.0.0.0.0 i.4660" % (hdr["mov"], l), True)
+                self.add("emit %d 0 - - l.%d" % (hdr["jmp"], l), True)
+                self.add("emit %d 0 - - r.%d.0 m.0.0.0.L%d.-.0.0.0.0" % (hdr["lea"], w, l), True)
+            if x64:
+                for v in big:
+                    sv = v if v < (1 << 63) else v - (1 << 64)
+                    for t_, sz in ((2, 1), (4, 2), (5, 4), (6, 8)):
+                        self.add("emit %d 0 - - r.%d.0 m.%d.0.1.-.-.0.%d.0.0" % (hdr["mov"], t_, sz, sv), True)
+                        self.add("emit %d 0 - - m.%d.0.1.-.-.0.%d.0.0 r.%d.0" % (hdr["mov"], sz, sv, t_), True)
+            else:
+                for v in (0x80000000, 0xFFFFF000, 0xFFFFFFFF):
+                    self.add("emit %d 0 - - r.5.0 m.4.0.0.-.-.0.%d.0.0" % (hdr["mov"], v), True)
+        self.targets.append((tag, len(self.ops)))
+
     def misc_block(self, n):
         rng = self.rng
         for _ in range(n):
@@ -525,12 +580,17 @@ def gen_ops(rng, tier):
         for f in (0, 0x400, 0x100, 0x500):
             g.set_flags(f)
             g.reg_sweep()
+        if comp:
+            for f in (0x0, 0x60, 0x500):
+                g.set_flags(f)
+                g.target_block(names, ids)
         if not comp:
             first = True
             for f in ((0x1, 0x0, 0x61, 0x9, 0x11, 0x79) if quick else [x for x in all_flags if x & 0x500 == 0]):
                 g.set_flags(f)
                 if rng.random() < 0.5:
                     g.add("logopts %d %d %d" % (rng.choice((0, 2, 4)), rng.choice((0, 30, 50)), rng.choice((0, 10, 30))))
+                g.target_block(names, ids)
                 g.emit_block(names, ids, (3000 if first else 500) if quick else 6000)
                 if first:
                     # the same references once the labels are bound: no dots any more
@@ -755,6 +815,21 @@ def run(res):
     res.coverage["input_distribution"] = kinds
     res.coverage["monitored_answers"] = judged
     res.coverage["emit_accepted_by_assembler"] = accepted
+    tgt = {"label_mem_plus_imm_with_dots": 0, "abs_ge_2G_texts": 0, "moffs64_emitted": 0, "local_label_under_unnamed_parent_texts": 0}
+    for b_, e_ in g.targets:
+        for i in range(b_, e_):
+            o, r = ops[i], impl[i]
+            if o.startswith("emit ") and r.startswith("T ") and ".L" in o and " i." in o and "...." in r:
+                tgt["label_mem_plus_imm_with_dots"] += 1
+            if o.startswith("op m.") and ".-.-.0." in o and r.startswith("="):
+                tgt["abs_ge_2G_texts"] += 1
+            if o.startswith("emit ") and ".-.-.0." in o and r.startswith("T ") and len(split_emit_answer(r)[1] or "") >= 18:
+                tgt["moffs64_emitted"] += 1
+            if "L0.inner" in r or "L7.loop" in r or "Data_1.loop" in r:
+                tgt["local_label_under_unnamed_parent_texts"] += "L0.inner" in r
+    res.coverage["targeted_cases"] = tgt
+    if not all(tgt.values()):
+        broken.append("generator no longer reaches a targeted class: %s" % tgt)
     res.coverage["machine_code_column_on_real_byte_stream"] = (
         "theorems machine_code_column_exact/_covers and log_is_transcript are about (bytes, rel, imm) of an emit history; the tie "
         "instantiates them with the REAL stream: each of the %d accepted `emit` lines runs x86::/a64::Assembler::_emit with a "
